@@ -326,6 +326,12 @@ pub fn eval_op(kind: OpK, ins: &[NArr]) -> Result<Vec<NArr>, String> {
 /// Evaluate the whole program; entry v of the result is the value of value-index v
 /// (None if it could not be computed because an operator failed).
 pub fn eval(p: &Prog, inputs: &[NArr]) -> Vec<Option<NArr>> {
+    eval_over(p, inputs, None)
+}
+
+/// Like `eval`, but the value `over.0` (an operator output) is supplied by the
+/// caller: everything downstream sees `over.1` instead of what its producer computes.
+pub fn eval_over(p: &Prog, inputs: &[NArr], over: Option<(usize, &NArr)>) -> Vec<Option<NArr>> {
     let mut vals: Vec<Option<NArr>> = Vec::new();
     for i in 0..p.n_inputs {
         vals.push(Some(inputs[i].clone()));
@@ -340,7 +346,10 @@ pub fn eval(p: &Prog, inputs: &[NArr]) -> Vec<Option<NArr>> {
             None => None,
         };
         for k in 0..op.kind.n_out() {
-            vals.push(outs.as_ref().map(|o| o[k].clone()));
+            match over {
+                Some((v, a)) if v == vals.len() => vals.push(Some(a.clone())),
+                _ => vals.push(outs.as_ref().map(|o| o[k].clone())),
+            }
         }
     }
     vals
